@@ -197,4 +197,16 @@ def run (d : Defaults) (st : Cfg) (evs : List (Option CM)) : Cfg := evs.foldl (s
 def nodeSpec (st : Cfg) (ls : Labels) : List Flat :=
   [selectNode ls st.thr, selectNode ls st.qos, selectNode ls st.burst, selectNode ls st.sys, selectNode ls st.host]
 
+/-- tail of getSystemConfigSpec: a node bandwidth annotation (`node.koordinator.sh/network-bandwidth`)
+    that parses overrides totalNetworkBandwidth; one that does not parse makes the function fail, and
+    getNodeSLOSpec then delivers a nil system strategy.  `bw`: none = no annotation, some none = unparsable. -/
+def sysWithAnnotation (t : Flat) : Option (Option Int) → Option Flat
+  | none => some t
+  | some none => none
+  | some (some v) => some (setLeaf t tnbPath (some v))
+
+def nodeSpecBw (st : Cfg) (ls : Labels) (bw : Option (Option Int)) : List (Option Flat) :=
+  [some (selectNode ls st.thr), some (selectNode ls st.qos), some (selectNode ls st.burst),
+   sysWithAnnotation (selectNode ls st.sys) bw, some (selectNode ls st.host)]
+
 end KoordVerif.C20
